@@ -437,4 +437,281 @@ Section SpecSound.
         pose proof (rest_slot_ge (slot s) wmk). lia.
       + unfold close_expired. cbn [adv s1]. intros Hadv. apply orb_false_iff in Hadv as [Hadv _]. apply Hf0. exact Hadv.
   Qed.
+
+  (* ---------------- Add ---------------- *)
+  Lemma add_core_cases id ts now s s' bs : add_core c id ts now s = (s', bs) ->
+    let w' := update_event_time (ooo c) now ts (w s) in
+    let sl0 := if init s then slot s else align ts (size c) in
+    let late := is_late ts w' in
+    let sl := if init s && negb late && (ts <? sl0) then align ts (size c) else sl0 in
+    init s' = true /\ slot s' = sl /\ w s' = w' /\ pend s' = pend s /\ adv s' = adv s /\
+    ( (data s' = data s ++ [(id, ts)] /\ trig s' = trig s /\ bs = [] /\ (late = false \/ inwin c sl ts = true))
+      \/ (data s' = data s /\ trig s' = trig s /\ bs = [] /\ late = true)
+      \/ (exists t, late = true /\ (0 <? lateness c) = true /\ find (fun t => in_twin t ts) (trig s) = Some t /\
+            data s' = filter (fun r => negb (in_twin t (rts r))) (data s ++ [(id, ts)]) /\
+            trig s' = update_snap (trig s) t (t_snap t ++ filter (fun r => in_twin t (rts r)) (data s ++ [(id, ts)])) /\
+            bs = [{| b_start := t_start t; b_end := t_end t;
+                     b_rows := t_snap t ++ filter (fun r => in_twin t (rts r)) (data s ++ [(id, ts)]); b_late := true |}]) ).
+  Proof.
+    unfold add_core. cbn zeta.
+    destruct (is_late ts (update_event_time (ooo c) now ts (w s))) eqn:El.
+    - destruct (inwin c _ ts) eqn:Ew.
+      + intros [= <- <-]. cbn [init slot w pend adv data trig].
+        refine (conj eq_refl (conj eq_refl (conj eq_refl (conj eq_refl (conj eq_refl _))))).
+        left. refine (conj eq_refl (conj eq_refl (conj eq_refl _))). right. first [exact Ew | reflexivity].
+      + destruct (0 <? lateness c) eqn:E0.
+        * destruct (find (fun t => in_twin t ts) (trig s)) as [t|] eqn:Ef.
+          -- intros [= <- <-]. cbn [init slot w pend adv data trig].
+             refine (conj eq_refl (conj eq_refl (conj eq_refl (conj eq_refl (conj eq_refl _))))).
+             right. right. exists t. refine (conj eq_refl (conj eq_refl (conj eq_refl (conj eq_refl (conj eq_refl eq_refl))))).
+          -- intros [= <- <-]. cbn [init slot w pend adv data trig].
+             refine (conj eq_refl (conj eq_refl (conj eq_refl (conj eq_refl (conj eq_refl _))))).
+             right. left. refine (conj eq_refl (conj eq_refl (conj eq_refl eq_refl))).
+        * intros [= <- <-]. cbn [init slot w pend adv data trig].
+          refine (conj eq_refl (conj eq_refl (conj eq_refl (conj eq_refl (conj eq_refl _))))).
+          right. left. refine (conj eq_refl (conj eq_refl (conj eq_refl eq_refl))).
+    - intros [= <- <-]. cbn [init slot w pend adv data trig].
+      refine (conj eq_refl (conj eq_refl (conj eq_refl (conj eq_refl (conj eq_refl _))))).
+      left. refine (conj eq_refl (conj eq_refl (conj eq_refl _))). left. reflexivity.
+  Qed.
+
+  Lemma KT_mono fired seen r t : KT fired seen t -> KT fired (seen ++ [r]) t.
+  Proof.
+    intros (A & B & C & D). split; [exact A|]. split; [exact B|]. split; [|exact D].
+    eapply Forall_impl; [|exact C]. intros x [H1 H2]. split; [exact H1|apply in_or_app; left; exact H2].
+  Qed.
+
+  Lemma update_snap_starts l t snap : map t_start (update_snap l t snap) = map t_start l.
+  Proof. induction l as [|x l IH]; cbn [update_snap map]; [reflexivity|]. destruct (t_end x =? t_end t); cbn [map t_start]; congruence. Qed.
+
+  Lemma KT_replace_other fired seen y b' :
+    KT fired seen y -> t_start y <> b_start b' -> KT (replace_fired b' fired) seen y.
+  Proof.
+    intros (A & B & C & p & Hf & Hr) Hne. split; [exact A|]. split; [exact B|]. split; [exact C|].
+    exists p. split; [|exact Hr]. rewrite find_fired_replace_other; [exact Hf|exact Hne].
+  Qed.
+
+  Lemma KT_update fired seen l t res b' :
+    Forall (KT fired seen) l -> NoDup (map t_start l) -> In t l ->
+    (forall r, In r res -> in_twin t (rts r) = true /\ In r seen) ->
+    b_start b' = t_start t -> b_rows b' = res ->
+    Forall (KT (replace_fired b' fired) seen) (update_snap l t res).
+  Proof.
+    intros HF. induction HF as [|x l Hx Hl IH]; intros Hnd Hin Hres Hbs Hbr; [contradiction|].
+    cbn [map] in Hnd. inversion Hnd as [|a b Hni Hnd']; subst a b.
+    assert (Hkt : KT fired seen t).
+    { destruct Hin as [<-|Hin]; [exact Hx|]. rewrite Forall_forall in Hl. apply Hl. exact Hin. }
+    destruct Hx as (Ax & Bx & Cx & px & Hfx & Hrx). destruct Hkt as (At & Bt & Ct & pt & Hft & Hrt).
+    cbn [update_snap]. destruct (t_end x =? t_end t) eqn:Ee.
+    - apply Z.eqb_eq in Ee. assert (Hst : t_start x = t_start t) by lia.
+      constructor.
+      + split; [exact Ax|]. split; [exact Bx|]. cbn [t_start t_end t_snap]. split.
+        * apply Forall_forall. intros r Hr. destruct (Hres r Hr) as [H1 H2]. split; [|exact H2].
+          unfold in_twin in *. cbn [t_start t_end]. rewrite Hst, Ee. exact H1.
+        * exists b'. split; [|exact Hbr]. rewrite Hst, <- Hbs. apply (find_fired_replace_same b' fired pt).
+          rewrite Hbs. exact Hft.
+      + apply Forall_forall. intros y Hy. rewrite Forall_forall in Hl. apply KT_replace_other; [apply Hl; exact Hy|].
+        rewrite Hbs, <- Hst. intros Heq. apply Hni. rewrite <- Heq. apply in_map. exact Hy.
+    - apply Z.eqb_neq in Ee. constructor.
+      + apply KT_replace_other; [split; [exact Ax|]; split; [exact Bx|]; split; [exact Cx|]; exists px; auto|].
+        rewrite Hbs. lia.
+      + apply IH; auto. destruct Hin as [<-|Hin]; [lia|exact Hin].
+  Qed.
+
+  Lemma ontime_not_late w seen mx lastw (id : Z) ts :
+    WK w seen mx lastw ->
+    sane c base ts && (match mx with None => true | Some m => m - ooo c <=? ts end) = true ->
+    is_late ts (update_event_time (ooo c) base ts w) = false.
+  Proof.
+    intros Hwk Hon. apply andb_prop in Hon as [Hsn Hle].
+    pose proof (uet_WK w seen mx lastw id ts Hwk) as [_ Hc _ _ _ _].
+    unfold is_late. rewrite Hc. unfold mx_add. rewrite Hsn. cbn [option_map]. apply Z.ltb_ge.
+    unfold omax. destruct mx as [m|]; [apply Z.leb_le in Hle; lia|lia].
+  Qed.
+
+  Lemma in_twin_inwin t ts : t_end t = t_start t + size c -> inwin c (t_start t) ts = in_twin t ts.
+  Proof. intros H. unfold inwin, in_twin. rewrite H. reflexivity. Qed.
+
+  Lemma add_sound s cs id ts s' evs :
+    K s cs -> 0 <= ts -> ~ In id (map rid (seen cs)) -> step c s (Add id ts base) = (s', evs) ->
+    exists cs', chk_evs cs evs = inl cs' /\ K s' cs' /\ seen cs' = seen cs ++ [(id, ts)].
+  Proof.
+    intros HK Hts Hfresh Hst. cbn [step] in Hst. unfold add in Hst.
+    destruct (add_core c id ts base s) as [s1 bs] eqn:Ea. injection Hst as <- <-.
+    pose proof (add_core_Inv c Hsize id ts base s s1 bs (k_inv _ _ HK) Hts Ea) as Hinv'.
+    pose proof (uet_WK (w s) (seen cs) (maxts cs) (lastw cs) id ts (k_wk _ _ HK)) as Hwk'.
+    pose proof (ontime_not_late (w s) (seen cs) (maxts cs) (lastw cs) id ts (k_wk _ _ HK)) as Hont.
+    destruct (add_core_cases _ _ _ _ _ _ Ea) as (Hi' & Hsl' & Hw' & Hp' & Ha' & Hcases).
+    pose proof (k_inv _ _ HK) as (I0 & I1 & Ia & Ina & Iw & Ip).
+    set (w' := update_event_time (ooo c) base ts (w s)) in *.
+    set (late := is_late ts w') in *.
+    set (ontime := sane c base ts && (match maxts cs with None => true | Some m => m - ooo c <=? ts end)) in *.
+    (* fired windows stay behind the slot: the slot is re-aligned backwards only before anything has fired *)
+    assert (Hfired' : Forall (fun b => b_start b + size c <= slot s1) (fired cs)).
+    { rewrite Hsl'. destruct (init s) eqn:Ei.
+      - cbn [andb]. destruct (negb late && (ts <? slot s)) eqn:Er.
+        + apply andb_prop in Er as [Enl Elt]. apply negb_true_iff in Enl. apply Z.ltb_lt in Elt.
+          destruct (adv s) eqn:Eadv.
+          * exfalso. pose proof (ltac:(first [exact (Ia Eadv)|exact (Ia eq_refl)]) : ole (slot s) (cur (w s))) as Hole.
+            pose proof (uet_mono (ooo c) base ts (w s) (slot s) Hole) as Hole'. fold w' in Hole'.
+            unfold late, is_late in Enl. unfold ole in Hole'. destruct (cur w') as [cw|]; [|contradiction].
+            apply Z.ltb_ge in Enl. lia.
+          * rewrite (ltac:(first [exact (k_fired0 _ _ HK Eadv)|exact (k_fired0 _ _ HK eq_refl)]) : fired cs = []). constructor.
+        + exact (k_fired _ _ HK).
+      - cbn [andb]. destruct (ltac:(first [exact (I0 Ei)|exact (I0 eq_refl)]) : _ /\ _ /\ _) as (_ & _ & Hadv).
+        rewrite (k_fired0 _ _ HK Hadv). constructor. }
+    assert (Hnd' : NoDup (map rid (seen cs ++ [(id, ts)]))).
+    { rewrite map_app. cbn [map rid fst]. apply NoDup_snoc; [exact (k_nodup _ _ HK)|exact Hfresh]. }
+    assert (Hnn' : Forall (fun r => 0 <= rts r) (seen cs ++ [(id, ts)])).
+    { apply Forall_app. split; [exact (k_nonneg _ _ HK)|constructor; [exact Hts|constructor]]. }
+    assert (Hes' : forall em, incl em (map rid (seen cs)) -> incl em (map rid (seen cs ++ [(id, ts)]))).
+    { intros em H i Hi. rewrite map_app. apply in_or_app. left. apply H. exact Hi. }
+    assert (Hds' : Forall (fun r => In r (seen cs ++ [(id, ts)])) (data s)).
+    { eapply Forall_impl; [|exact (k_data _ _ HK)]. intros r Hr. apply in_or_app. left. exact Hr. }
+    assert (Hidnew : forall r, In r (data s) -> rid r <> id).
+    { intros r Hr Heq. apply Hfresh. rewrite <- Heq. apply in_map. pose proof (k_data _ _ HK) as H. rewrite Forall_forall in H. apply H. exact Hr. }
+    assert (Hednew : ~ In id (emitted cs)).
+    { intros Hi. apply Hfresh. apply (k_emit_seen _ _ HK). exact Hi. }
+    cbn [map chk_evs chk_ev]. fold ontime.
+    destruct Hcases as [(Hd' & Ht' & -> & Hkeep)|[(Hd' & Ht' & -> & Hlate)|(t & Hlate & Hlat & Hfind & Hd' & Ht' & ->)]].
+    - (* kept in the buffer *)
+      cbn [map chk_evs]. eexists. split; [reflexivity|]. split; [|reflexivity].
+      constructor; cbn [seen maxts owed owed_new dw lastw fired lastadd emitted]; try assumption.
+      + rewrite Hw'. exact Hwk'.
+      + rewrite Hd'. apply Forall_app. split; [exact Hds'|constructor; [apply in_or_app; right; left; reflexivity|constructor]].
+      + rewrite Hd'. destruct ontime.
+        * rewrite app_assoc. apply Forall_app. split.
+          -- eapply Forall_impl; [|exact (k_owed _ _ HK)]. intros r Hr. apply in_or_app. left. exact Hr.
+          -- constructor; [apply in_or_app; right; left; reflexivity|constructor].
+        * eapply Forall_impl; [|exact (k_owed _ _ HK)]. intros r Hr. apply in_or_app. left. exact Hr.
+      + rewrite Hp'. exact (k_dw _ _ HK).
+      + apply Hes'. exact (k_emit_seen _ _ HK).
+      + rewrite Hd'. apply Forall_app. split; [exact (k_emit_data _ _ HK)|constructor; [exact Hednew|constructor]].
+      + rewrite Ht'. eapply Forall_impl; [|exact (k_trig _ _ HK)]. intros x. apply KT_mono.
+      + rewrite Ht'. exact (k_trig_nd _ _ HK).
+      + rewrite Ha'. exact (k_fired0 _ _ HK).
+    - (* dropped: late, so not owed *)
+      assert (Hno : ontime = false).
+      { destruct ontime eqn:Eo; [|reflexivity]. exfalso. pose proof (Hont eq_refl) as Hnl. change (late = true) in Hlate. change (late = false) in Hnl. congruence. }
+      rewrite Hno. cbn [map chk_evs]. eexists. split; [reflexivity|]. split; [|reflexivity].
+      constructor; cbn [seen maxts owed owed_new dw lastw fired lastadd emitted]; try assumption.
+      + rewrite Hw'. exact Hwk'.
+      + rewrite Hd'. exact Hds'.
+      + rewrite Hd'. exact (k_owed _ _ HK).
+      + rewrite Hp'. exact (k_dw _ _ HK).
+      + apply Hes'. exact (k_emit_seen _ _ HK).
+      + rewrite Hd'. exact (k_emit_data _ _ HK).
+      + rewrite Ht'. eapply Forall_impl; [|exact (k_trig _ _ HK)]. intros x. apply KT_mono.
+      + rewrite Ht'. exact (k_trig_nd _ _ HK).
+      + rewrite Ha'. exact (k_fired0 _ _ HK).
+    - (* absorbed by a fired window that is still open: one re-delivery *)
+      assert (Hno : ontime = false).
+      { destruct ontime eqn:Eo; [|reflexivity]. exfalso. pose proof (Hont eq_refl) as Hnl. change (late = true) in Hlate. change (late = false) in Hnl. congruence. }
+      rewrite Hno. apply find_some in Hfind as [Hint Htw].
+      pose proof (k_trig _ _ HK) as Htr. pose proof Htr as Htr0. rewrite Forall_forall in Htr0.
+      destruct (Htr0 t Hint) as (At & Bt & Ct & pt & Hft & Hrt).
+      (* the window lies behind the slot, the buffer at or after it *)
+      assert (Hinit : init s = true).
+      { destruct (init s) eqn:Ei; [reflexivity|]. destruct (ltac:(first [exact (I0 Ei)|exact (I0 eq_refl)]) : _ /\ _ /\ _) as (_ & Htn & _).
+        rewrite Htn in Hint. contradiction. }
+      destruct (I1 Hinit) as (Hal & Hdge & Htle). rewrite Forall_forall in Hdge, Htle.
+      assert (Hout : forall r, In r (data s) -> in_twin t (rts r) = false).
+      { intros r Hr. specialize (Hdge r Hr). specialize (Htle t Hint). unfold in_twin. apply andb_false_iff. right. apply Z.ltb_ge. lia. }
+      assert (Hfin : filter (fun r => in_twin t (rts r)) (data s ++ [(id, ts)]) = [(id, ts)]).
+      { rewrite filter_app. rewrite (filter_none' _ (data s) Hout). cbn [filter app rts snd]. rewrite Htw. reflexivity. }
+      assert (Hfout : filter (fun r => negb (in_twin t (rts r))) (data s ++ [(id, ts)]) = data s).
+      { rewrite filter_app. rewrite filter_all; [|intros r Hr; rewrite (Hout r Hr); reflexivity].
+        cbn [filter rts snd]. rewrite Htw. cbn [negb]. apply app_nil_r. }
+      rewrite Hfin in *. rewrite Hfout in Hd'.
+      set (res := t_snap t ++ [(id, ts)]) in *.
+      cbn [map chk_evs chk_ev b_start b_end b_rows seen fired lastadd emitted owed owed_new].
+      assert (Hresin : forall r, In r res -> in_twin t (rts r) = true /\ In r (seen cs ++ [(id, ts)])).
+      { intros r Hr. apply in_app_or in Hr as [Hr|[<-|[]]].
+        - rewrite Forall_forall in Ct. destruct (Ct r Hr) as [H1 H2]. split; [exact H1|apply in_or_app; left; exact H2].
+        - split; [exact Htw|apply in_or_app; right; left; reflexivity]. }
+      assert (C1 : (t_end t =? t_start t + size c) && (0 <? size c) && (t_start t mod size c =? 0)
+                   && forallb (fun r => inwin c (t_start t) (rts r)) res = true).
+      { rewrite At, Z.eqb_refl. assert (E : (0 <? size c) = true) by (apply Z.ltb_lt; exact Hsize). rewrite E. cbn [andb].
+        apply andb_true_iff. split; [destruct Bt as [k Hk]; apply Z.eqb_eq; rewrite Hk; apply Z_mod_mult|].
+        apply forallb_forall. intros r Hr. rewrite (in_twin_inwin t (rts r) At). apply (Hresin r Hr). }
+      rewrite C1. cbn [negb].
+      assert (C2 : forallb (fun r => row_in r (seen cs ++ [(id, ts)])) res = true).
+      { apply forallb_forall. intros r Hr. apply row_in_In. apply (Hresin r Hr). }
+      rewrite C2. cbn [negb]. rewrite Hft.
+      assert (C3 : (lateness c <=? 0) = false) by (apply Z.leb_gt; apply Z.ltb_lt in Hlat; exact Hlat).
+      rewrite C3. rewrite Hrt. unfold res. rewrite rows_eqb_refl.
+      eexists. split; [reflexivity|]. split; [|reflexivity].
+      constructor; cbn [seen maxts owed owed_new dw lastw fired lastadd emitted]; try assumption.
+      + rewrite Hw'. exact Hwk'.
+      + rewrite Hd'. exact Hds'.
+      + rewrite Hd'. rewrite <- filter_app. apply Forall_filter. exact (k_owed _ _ HK).
+      + rewrite Hp'. exact (k_dw _ _ HK).
+      + intros i Hi. apply in_app_or in Hi as [Hi|[<-|[]]].
+        * apply (Hes' (emitted cs) (k_emit_seen _ _ HK)). exact Hi.
+        * rewrite map_app. apply in_or_app. right. left. reflexivity.
+      + rewrite Hd'. apply Forall_forall. intros r Hr Hi. apply in_app_or in Hi as [Hi|[Hi|[]]].
+        * pose proof (k_emit_data _ _ HK) as H. rewrite Forall_forall in H. exact (H r Hr Hi).
+        * exact (Hidnew r Hr (eq_sym Hi)).
+      + rewrite Ht'. fold res. apply (KT_update (fired cs) (seen cs ++ [(id, ts)]) (trig s) t res).
+        * eapply Forall_impl; [|exact Htr]. intros x. apply KT_mono.
+        * exact (k_trig_nd _ _ HK).
+        * exact Hint.
+        * exact Hresin.
+        * reflexivity.
+        * reflexivity.
+      + rewrite Ht'. rewrite update_snap_starts. exact (k_trig_nd _ _ HK).
+      + apply Forall_replace_fired; [exact Hfired'|]. cbn [b_start]. rewrite Hsl'. rewrite Hinit. cbn [andb].
+        fold late. rewrite Hlate. cbn [negb andb]. specialize (Htle t Hint). lia.
+      + rewrite Ha'. intros Hadv. pose proof (k_fired0 _ _ HK Hadv) as Hf0. rewrite Hf0 in Hft. discriminate.
+  Qed.
+
+  (* ---------------- every step, every history ---------------- *)
+  Lemma step_sound s cs o s' evs :
+    K s cs -> op_okc cs o -> step c s o = (s', evs) ->
+    exists cs', chk_evs cs evs = inl cs' /\ K s' cs' /\ map rid (seen cs') = map rid (seen cs) ++ op_ids o.
+  Proof.
+    intros HK Hok Hst. destruct o as [id ts now|id| | |now].
+    - destruct Hok as (-> & Hts & Hfresh). destruct (add_sound s cs id ts s' evs HK Hts Hfresh Hst) as (cs' & A & B & C).
+      exists cs'. split; [exact A|]. split; [exact B|]. rewrite C, map_app. reflexivity.
+    - cbn [step] in Hst. injection Hst as <- <-. cbn [chk_evs chk_ev]. eexists. split; [reflexivity|].
+      split; [apply K_clear_last; exact HK|]. cbn [op_ids]. rewrite app_nil_r. reflexivity.
+    - destruct (deliver_begin_sound s cs s' evs HK Hst) as (cs' & A & B & C).
+      exists cs'. split; [exact A|]. split; [exact B|]. rewrite C. cbn [op_ids]. rewrite app_nil_r. reflexivity.
+    - destruct (fire_step_sound s cs s' evs HK Hst) as (cs' & A & B & C).
+      exists cs'. split; [exact A|]. split; [exact B|]. rewrite C. cbn [op_ids]. rewrite app_nil_r. reflexivity.
+    - destruct (tick_sound s cs now s' evs HK Hst) as (cs' & A & B & C).
+      exists cs'. split; [exact A|]. split; [exact B|]. rewrite C. cbn [op_ids]. rewrite app_nil_r. reflexivity.
+  Qed.
+
+  Definition hist_op_ok (o : op) : Prop := match o with Add _ ts now => now = base /\ 0 <= ts | _ => True end.
+  Definition hids (h : list op) : list Z := flat_map op_ids h.
+
+  Lemma run_sound h : forall s cs,
+    K s cs -> Forall hist_op_ok h -> NoDup (map rid (seen cs) ++ hids h) ->
+    chk_trace c base cs (snd (run c s h)) = None.
+  Proof.
+    induction h as [|o h IH]; intros s cs HK Hok Hnd; [reflexivity|].
+    inversion Hok as [|o' h' Ho Hh]; subst. cbn [run].
+    destruct (step c s o) as [s1 e1] eqn:E1. destruct (run c s1 h) as [s2 e2] eqn:E2. cbn [snd].
+    assert (Hokc : op_okc cs o).
+    { destruct o as [id ts now| | | |]; cbn; auto. destruct Ho as [Hn Ht]. split; [exact Hn|]. split; [exact Ht|].
+      cbn [hids flat_map op_ids app] in Hnd. intros Hin. apply NoDup_remove_2 in Hnd. apply Hnd. apply in_or_app. left. exact Hin. }
+    destruct (step_sound s cs o s1 e1 HK Hokc E1) as (cs' & A & B & C).
+    rewrite chk_trace_app, A. specialize (IH s1 cs' B Hh). rewrite E2 in IH. cbn [snd] in IH. apply IH.
+    rewrite C. cbn [hids flat_map] in Hnd. rewrite <- app_assoc. exact Hnd.
+  Qed.
+
+  Lemma K0 : K st0 cst0.
+  Proof.
+    constructor; cbn; try (constructor; fail); auto.
+    - apply Inv_st0.
+    - constructor; cbn; try constructor; try reflexivity. intros m H; discriminate.
+    - intros i [].
+  Qed.
+
+  (* every clause of the executable checker the harness applies to the real window's trace holds of every trace of
+     the model, for all histories of atomic steps *)
+  Theorem model_passes_checker h :
+    Forall hist_op_ok h -> NoDup (hids h) -> chk_C01 c base (snd (run c st0 h)) = None.
+  Proof. intros Hok Hnd. unfold chk_C01. apply (run_sound h st0 cst0 K0 Hok). exact Hnd. Qed.
 End SpecSound.
